@@ -9,9 +9,18 @@
          deser0 <value|invalid> <ignored>                       -> result of [deserialize_v0]
          rt     <typename> x<hex sdp>                           -> deserialize (Some (serialize d))
          ser    <typename> x<hex sdp>                           -> value token of serialize d
-   result: ok <typename> x<hex sdp> | err | !panic *)
+   result: ok <typename> x<hex sdp> | err | !panic
+
+   callers (Model/SessDescCallers.v); <v> = value token or `invalid`, as above:
+         natprobe   <p | e | o<v>> <ignored>                 -> ret | !panic      (p: Post failed, e: DecodeAnswerRequest failed)
+         polloffer  <script> <ignored>                        -> nil | ok <typename> x<hex> | !panic
+         runsession <script> <relay_ok> <ignored>             -> ret | !panic
+              script = `;`-list of b (bad response) | n (no match) | o<v> (client match with this Offer string)
+         negotiate  <x | b | r | a<v>> <ignored>              -> err | ok <typename> x<hex> | !panic
+         connect    <x | b | r | a<v>> <ignored>              -> ret | !panic
+              x: Exchange failed, b: DecodeClientPollResponse failed, r: resp.Error != "", a<v>: resp.Answer *)
 From Coq Require Import List NArith Bool Arith String.
-From Snow Require Import Lib.Wire Model.SessDesc.
+From Snow Require Import Lib.Wire Model.SessDesc Model.SessDescCallers.
 Import ListNotations.
 Open Scope N_scope.
 
@@ -124,6 +133,41 @@ Definition outcome_print (o : outcome) : bytes :=
   | Panic => bs "!panic"
   end.
 
+(* ---------------------------------------------------------------- callers *)
+
+Definition outer_parse (t : bytes) : option (bool * option (option json)) :=
+  match t with
+  | [112] => Some (false, None)
+  | [101] => Some (true, None)
+  | 111 :: v => option_map (fun j => (true, Some j)) (value_parse v)
+  | _ => None
+  end.
+
+Definition presp_parse (t : bytes) : option presp :=
+  match t with
+  | [98] => Some PollBad
+  | [110] => Some PollNoMatch
+  | 111 :: v => option_map PollOffer (value_parse v)
+  | _ => None
+  end.
+
+Definition script_parse (t : bytes) : option (list presp) :=
+  if beq t (bs "-") then Some [] else map_opt presp_parse (split_on SEMI t).
+
+Definition cresp_parse (t : bytes) : option cresp :=
+  match t with
+  | [120] => Some ExchErr
+  | [98] => Some RespBad
+  | [114] => Some RespError
+  | 97 :: v => option_map RespAnswer (value_parse v)
+  | _ => None
+  end.
+
+Definition cout_print (c : cout) : bytes :=
+  match c with CRet _ => bs "ret" | CPanic => bs "!panic" end.
+
+Definition desc_print (d : desc) : bytes := bs "ok " ++ sdptype_print (d_type d) ++ bs " x" ++ hex_encode (d_sdp d).
+
 Definition run (args : list bytes) : bytes :=
   match args with
   | [op; a; b] =>
@@ -139,6 +183,42 @@ Definition run (args : list bytes) : bytes :=
       else if beq op (bs "ser") then
         match sdptype_parse a, payload_parse b with
         | Some t, Some s => value_print (serialize (mkDesc t s))
+        | _, _ => ERR_BADCASE
+        end
+      else if beq op (bs "natprobe") then
+        match outer_parse a with
+        | Some (post_ok, outer) => cout_print (natprobe_code post_ok outer)
+        | None => ERR_BADCASE
+        end
+      else if beq op (bs "polloffer") then
+        match script_parse a with
+        | Some rs => match poll_offer_code rs with
+                     | None => bs "!panic"
+                     | Some None => bs "nil"
+                     | Some (Some d) => desc_print d
+                     end
+        | None => ERR_BADCASE
+        end
+      else if beq op (bs "negotiate") then
+        match cresp_parse a with
+        | Some r => match negotiate_code r with
+                    | None => bs "!panic"
+                    | Some (Some d, false) => desc_print d
+                    | Some (None, false) => bs "!nilnil"
+                    | Some (_, true) => bs "err"
+                    end
+        | None => ERR_BADCASE
+        end
+      else if beq op (bs "connect") then
+        match cresp_parse a with
+        | Some r => cout_print (connect_code r)
+        | None => ERR_BADCASE
+        end
+      else ERR_BADCASE
+  | [op; a; b; _] =>
+      if beq op (bs "runsession") then
+        match script_parse a, bool_parse b with
+        | Some rs, Some relay_ok => cout_print (run_session_code rs relay_ok)
         | _, _ => ERR_BADCASE
         end
       else ERR_BADCASE
